@@ -1,5 +1,6 @@
 import Chrono.Drv.Util
 import Chrono.Model.ParsedResolve
+import Chrono.Model.ParsedZone
 namespace Chrono.Drv.ParsedResolve
 open Chrono Chrono.M Chrono.Drv
 
@@ -41,8 +42,36 @@ def applySet (field : String) (v : Int) (p : Parsed) : Option (PRes Parsed) :=
   | "offset" => some (p.set_offset v)
   | _ => none
 
+/-- `T o1 o2` -/
+def stepZone? (ts : List String) : Option StepZone :=
+  match ints? ts with
+  | some [t, o1, o2] => some ⟨t, o1, o2⟩
+  | _ => none
+
+/-- `yof secs frac` -/
+def naive? (ts : List String) : Option NaiveDT :=
+  match ints? ts with
+  | some [y, s, f] => some ⟨⟨y⟩, ⟨s, f⟩⟩
+  | _ => none
+
+def showMapped (m : Res (TzL.Mapped Zoned)) : String :=
+  match m with
+  | .panic => "panic"
+  | .ok .none => "none"
+  | .ok (.single a) => s!"single {showZ a}"
+  | .ok (.ambiguous a b) => s!"ambiguous {showZ a} {showZ b}"
+
 def handle (op : String) (args : List String) : Option String :=
   match op with
+  | "pr.tzstep" => some (match Parsed.ofTokens (args.take 21), stepZone? (args.drop 21) with
+      | some p, some z => showRP showZ (Parsed.to_datetime_with_step_zone p z)
+      | _, _ => bad)
+  | "pr.steplocal" => some (match stepZone? (args.take 3), naive? (args.drop 3) with
+      | some z, some l => showMapped (z.from_local_datetime l)
+      | _, _ => bad)
+  | "pr.steputc" => some (match stepZone? (args.take 3), naive? (args.drop 3) with
+      | some z, some u => showRes toString (z.offset_from_utc_datetime u)
+      | _, _ => bad)
   | "pr.date" => some (match Parsed.ofTokens args with
       | some p => showRP showDate (Parsed.to_naive_date p) | none => bad)
   | "pr.time" => some (match Parsed.ofTokens args with
